@@ -1,6 +1,6 @@
 (* C03 Thresholds and Wait durations are honoured. Statements only. *)
 From Coq Require Import ZArith List Bool Arith.
-From OP Require Import lib.Obs model.Interp model.InterpRun model.C02 model.C03 proofs.Interp_inv proofs.C05_proofs proofs.Interp_fields proofs.C02_proofs.
+From OP Require Import lib.Obs model.Interp model.InterpRun model.C02 model.C03 proofs.Interp_inv proofs.C05_proofs proofs.Interp_fields proofs.C02_proofs proofs.C03_clock.
 Import ListNotations.
 Open Scope Z_scope.
 
@@ -20,8 +20,25 @@ Proof.
 Qed.
 Print Assumptions C03_never_starts_before_its_threshold.
 
-(* PARTIAL. The environment is the oracle "is this threshold still awaited": the arithmetic that decides it from the scope
-   clock, the base unit and the threshold (_is_awaiting_threshold, units.compare_values) is not modelled. Promptness (a
+(* The oracle of that theorem -- "is this threshold still awaited" -- as _is_awaiting_threshold decides it: an
+   uncompleted, unforced line with a threshold T (in the current Base unit s / min / h) is held back EXACTLY while the
+   clock of its scope -- Block Time when the Block tag names a block, Scope Time otherwise -- is below T; whether the line
+   is run by the main flow or by a Watch / Alarm handler makes no difference. *)
+Theorem C03_threshold_is_measured_on_the_scope_clock : forall k,
+  awaiting_threshold k = true <->
+  k_completed k = false /\ k_has_thr k = true /\ k_forced k = false /\ scope_clock k < 10 * k_thr k * factor (k_base k).
+Proof. exact awaiting_spec. Qed.
+Print Assumptions C03_threshold_is_measured_on_the_scope_clock.
+
+Theorem C03_reached_threshold_is_not_awaited : forall k,
+  10 * k_thr k * factor (k_base k) <= scope_clock k -> awaiting_threshold k = false.
+Proof. exact reached_not_awaiting. Qed.
+Print Assumptions C03_reached_threshold_is_not_awaited.
+
+(* PARTIAL. The run model takes "is this threshold still awaited" from its environment; the clock stream ties that oracle
+   to the real _is_awaiting_threshold (real tag objects, real units.compare_values) for the time units s / min / h; volume
+   and CV base units and the upkeep of Scope Time / Block Time by the engine are not modelled (the clocks of C07).
+   Promptness (a
    line starts in the first tick in which its threshold is no longer awaited and the line before it has been passed) and
    the Wait clause (the line after `Wait: d` starts no earlier than d - 0.1 s after the tick in which the Wait began, and
    the Wait completes in the first tick at or after that time) are decided by the Coq monitor on the real interpreter. *)
